@@ -339,7 +339,7 @@ func init() {
 			}
 			cfg.Logging.RequestID.Enabled = c.IDs
 			cfg.Logging.Trace.Enabled = c.IDs
-			cfg.Server.Timeouts = config.TimeoutConfig{Read: 60, Write: 60, Idle: 120, BackendRead: 60}
+			cfg.Server.Timeouts = config.TimeoutConfig{Read: 3, Write: 60, Idle: 120, BackendRead: 50} // the longest streamed response takes 10 s: longer than read, shorter than write
 			if c.Features {
 				cfg.CircuitBreaker = config.CircuitBreakerConfig{Enabled: true, FailureThreshold: 1000000, SuccessThreshold: 1, IntervalSeconds: 3600, TimeoutSeconds: 60}
 				cfg.RateLimit = config.RateLimitConfig{Enabled: true, MaxTokens: 1000000, RefillRate: 1}
